@@ -80,6 +80,20 @@ def rust_items(src):
                     elif e == '"': val += '"'
                     elif e == "'": val += "'"
                     elif e == "0": val += "\0"
+                    elif e == "\n":
+                        j += 2
+                        while j < n and src[j] in " \t\r\n":
+                            j += 1
+                        continue
+                    elif e == "x":
+                        val += chr(int(src[j + 2:j + 4], 16)); j += 4
+                        continue
+                    elif e == "u":
+                        um = re.match(r"\{([0-9a-fA-F_]+)\}", src[j + 2:])
+                        if not um:
+                            raise TranslateError("bad \\u escape in a Rust string literal")
+                        val += chr(int(um.group(1).replace("_", ""), 16)); j += 2 + um.end()
+                        continue
                     else:
                         raise TranslateError(f"unsupported escape \\{e} in a Rust string literal")
                     j += 2
